@@ -262,7 +262,17 @@ def build_host(host):
         elif kind == 'staticapp':
             routes.append((p + '/', StaticApplication(here)))
         elif kind == 'subapp':
-            routes.append((p, Application([Route('/in', func), Route('/in/<y:int>', lambda y: Response(str(y)))])))
+            # the embedded application may have a value of its own under a (non-secret) resource name of the host, and an
+            # endpoint taking it: the pages of the host describe the host
+            vis = [r['name'] for r in host['resources'] if not r['secret'] and re.match(r'^[A-Za-z_]\w*$', r['name'])]
+            sub_routes = [Route('/in', func), Route('/in/<y:int>', lambda y: Response(str(y)))]
+            sub_res = {}
+            if vis and i % 2 == 0:
+                ns2 = {'Response': Response}
+                exec('def takes(%s):\n    return Response("t")\n' % vis[0], ns2)
+                sub_routes.append(Route('/takes', ns2['takes']))
+                sub_res = {vis[0]: 'value-of-the-embedded-application'}
+            routes.append((p, Application(sub_routes, resources=sub_res)))
         elif kind == 'render-arg':
             routes.append(Route(p, lambda: {'a': 1}, 'some_template.html' if host['factory'] else (lambda context: Response('r'))))
         elif kind == 'render-arg-object':
